@@ -25,6 +25,7 @@ import GoBT.Props.C20Insc
 import GoBT.Props.C04
 import GoBT.Interp.SigDigest
 import GoBT.Props.C14
+import GoBT.Script.WriteReviewLib
 namespace GoBT.C20
 open GoBT GoBT.Fee GoBT.Ord GoBT.Sighash
 
@@ -444,5 +445,13 @@ def sampleUtxos : List UTXO :=
 
 example : (acceptListing samplePstx sampleOrd sampleUtxos p2pkhT p2pkhT p2pkhT sampleFq).toOption.isSome = true := by
   decide +kernel
+
+/-- Regenerated fact (go/ssa write-site table of packages bt and bscript, `Gen/WritesLib.lean`): in the inscription routines every
+    store, `copy`, `append` and every call that writes through a parameter or a `*Script` targets a buffer allocated in the
+    same function (or is a reviewed part of the function's contract), and every byte slice handed to another package
+    goes to a reviewed read-only function (GoBT/Script/WriteReviewLib.lean).  Code that appends to or writes into a
+    slice it was handed — a previous-output script, a caller's hash, a destination's old buffer — adds a row with a
+    `param:` / `field:` / `deref:` origin and breaks this obligation. -/
+theorem lib_writes_only_fresh_buffers : GoBT.Script.WriteReviewLib.writesOkFor "C20" = true := by decide +kernel
 
 end GoBT.C20
